@@ -37,10 +37,12 @@ COMMENTS = [" ", "\n", "\n\n", " # c\n", "#\n", "#[\n", "#[=\n", "#[=x\n", "# #[
 
 # ---------------------------------------------------------------- CMinx side
 
-def impl_commands(text):
-    """(name, argument values) of every command_invocation of the public parse tree, in source order"""
+def impl_commands(text, tree=None):
+    """(name, argument values) of every command_invocation of the public parse tree, in source order
+    tree: a parse tree obtained elsewhere (the one a Documenter walked) instead of parsing `text` here"""
     from cminx.parser.CMakeParser import CMakeParser
-    tree, parser = pipeline.parse_tree(text)
+    if tree is None:
+        tree, parser = pipeline.parse_tree(text)
     out = []
 
     def arg_values(ctx, acc):
@@ -76,7 +78,7 @@ def impl_commands(text):
     return out
 
 
-def judge_text(text):
+def judge_text(text, mtime=None):
     """messages for one file"""
     try:
         ref = [(n, a) for n, a, _ in reflex.parse(text)]
@@ -94,9 +96,17 @@ def judge_text(text):
         msgs.append(f"boundaries: command {i}: CMinx sees {got[i] if i < len(got) else None!r}, "
                     f"CMake sees {ref[i] if i < len(ref) else None!r}")
         return msgs, ref
-    r = pipeline.document_text(text)
+    r = pipeline.document_text(text, mtime=mtime)
     if r["page"] is None:
         msgs.append(f"rejected: Documenter.process() failed: {r['error'][:160]}")
+    elif r.get("tree") is not None:
+        # what the Documenter itself read and walked (its own decoding, caching, stream handling), not only what the
+        # public parser makes of the text
+        got = impl_commands(None, r["tree"])
+        if got != ref:
+            i = next((i for i, (a, b) in enumerate(itertools.zip_longest(got, ref)) if a != b), 0)
+            msgs.append(f"boundaries: command {i}: the Documenter walked {got[i] if i < len(got) else None!r}, "
+                        f"CMake sees {ref[i] if i < len(ref) else None!r}")
     return msgs, ref
 
 
@@ -128,6 +138,74 @@ def check_file(job):
     return {"viol": msgs, "obs": common.digest(ref), "nt": common.digest(text), "known": known, "n": 1,
             "cls": (msgs[0].split(":")[0] + (" generic_command" if "generic_command" in text else "")) if msgs else None,
             "ncmd": len(ref), "case": {"label": label, "text": text}}
+
+
+def check_rewrite(job):
+    """one path, written twice with different contents of the same size and the same modification time, documented after
+    each write in one process: both views must be CMake's"""
+    a, b = job
+    m1, _ = judge_text(a, mtime=pipeline.FIXED_MTIME)
+    m2, ref = judge_text(b, mtime=pipeline.FIXED_MTIME)
+    msgs = [f"rewrite (first content): {m}" for m in m1] + [f"rewrite (second content, same size and mtime): {m}" for m in m2]
+    return {"viol": msgs, "obs": common.digest(ref), "nt": common.digest([a, b]), "n": 2,
+            "cls": "rewrite " + msgs[0].split(": ")[1].split(":")[0] if msgs else None,
+            "case": {"label": "one path rewritten", "rewrite": [a, b]}}
+
+
+def rewrite_pairs(cmds, per_len):
+    """pairs of generated commands of equal byte length"""
+    by = {}
+    for c in cmds:
+        by.setdefault(len(c.encode("utf-8")), []).append(c)
+    out = []
+    for n, lst in sorted(by.items()):
+        step = max(1, len(lst) // per_len)
+        pick = lst[::step][:per_len + 1]
+        out += [(x + "\n", y + "\n") for x, y in zip(pick, pick[1:])]
+    out.append(("list(APPEND srcs a b c)\n", 'list(APPEND srcs "a b")\n'))
+    return out
+
+
+def processor_files():
+    """every command name the aggregator has a process_<name> method for (read from the implementation, so a newly
+    special-cased command is included), undocumented and documented, with 1..3 arguments, at top level, inside a class
+    block followed by an implementing definition, and inside a function body; in three spellings"""
+    from cminx.aggregator import DocumentationAggregator
+    from .. import cmakegen
+    names = sorted(m[8:] for m in dir(DocumentationAggregator) if m.startswith("process_") and m != "process_generic_command")
+    d = "#[[[\n# doc\n#]]\n"
+    out = []
+    for n in names:
+        for case in ("lower", "upper", "mixed"):
+            sp = cmakegen.case_of(n, case)
+            for doc in ("", d):
+                for args in ("a", "a b", "a b c", "NAME a", "m C int", "NAME a EXPECTFAIL"):
+                    cmd = f"{doc}{sp}({args})"
+                    if n in ("function", "macro"):
+                        cmd += f"\nend{n}()"
+                    for label, wrap in (("top level", "{}\n"),
+                                        ("in a class, before a definition", "cpp_class(C)\n{}\nfunction(\"${{m}}\" self x)\nendfunction()\ncpp_end_class()\n"),
+                                        ("in a function body", "function(outer)\n{}\nendfunction()\n")):
+                        out.append((f"{'documented' if doc else 'undocumented'} {sp}({args}) {label}", wrap.format(cmd)))
+    return out
+
+
+def redefinition_files():
+    """the same function/macro name defined more than once (branches of an if, case variants, overloads by arity)"""
+    d = "#[[[\n# doc\n#]]\n"
+    out = []
+    for kind in ("function", "macro"):
+        for d1 in ("", d):
+            for d2 in ("", d):
+                for n1, n2 in (("say", "say"), ("say", "SAY"), ("Say", "say")):
+                    e = "end" + kind
+                    out.append((f"{kind} {n1}/{n2} in two branches", f"if(WIN32)\n{d1}{kind}({n1} a)\n{e}()\nelse()\n{d2}{kind}({n2} a b)\n{e}()\nendif()\n"))
+                    out.append((f"{kind} {n1}/{n2} in sequence", f"{d1}{kind}({n1})\n{e}()\n{d2}{kind}({n2})\n{e}()\n{d2}{kind}({n2} x)\n  set(V 1)\n{e}()\n"))
+                    out.append((f"{kind} {n1} redefined inside itself", f"{d1}{kind}({n1})\n{d2}{kind}({n2})\n{e}()\n{e}()\n"))
+    out.append(("function and macro of one name", f"{d}function(both)\nendfunction()\n{d}macro(both)\nendmacro()\n"))
+    out.append(("class defined twice", f"{d}cpp_class(K)\ncpp_end_class()\n{d}cpp_class(K)\n{d}cpp_attr(K a)\ncpp_end_class()\n"))
+    out.append(("test defined twice", f"{d}ct_add_test(NAME t)\nfunction(${{t}})\nendfunction()\n{d}ct_add_test(NAME t)\nfunction(${{t}})\nendfunction()\n"))
+    return out
 
 
 def _depth_at(text, pos):
@@ -193,8 +271,10 @@ def batches(cmds, size):
 
 def check_batch(job):
     """a file of many commands; if anything is wrong, every command is re-run on its own to isolate it"""
+    # the batch, and then each of its commands, is judged in a child of its own: verdicts here never depend on what
+    # this worker documented before (histories are the business of the sweeps below)
     label, text = job
-    r = check_file(job)
+    r = common.in_fork(check_file, job)
     n = r["ncmd"]
     if not r["viol"]:
         r["n"] = 1
@@ -217,7 +297,7 @@ def check_batch(job):
             if depth == 0 and start is not None:
                 cmds.append(text[start:b]); start = None
     for c in cmds:
-        rr = check_file((label, c + "\n"))
+        rr = common.in_fork(check_file, (label, c + "\n"))
         if rr["viol"]:
             subs.append(rr)
     if not subs:   # only the combination fails: report the batch itself
@@ -391,6 +471,10 @@ def run(ctx):
     ctx.sweep(check_file, documented_uses(LEX if not quick else [l for l in LEX if l in CORE or l in BRA or l in QUO or l in ("[", "*values", "out[", "x**2")]),
               space="documented commands x lexemes", selftest=3)
     ctx.sweep(check_file, boundary_files(), space="multi-byte characters at buffer boundaries", selftest=2)
+    ctx.sweep(check_file, redefinition_files(), space="a name defined more than once", selftest=2)
+    ctx.sweep(check_file, processor_files(), space="every specially processed command name x arity x context", selftest=2)
+    rp = rewrite_pairs(cmds, 3 if quick else 12)
+    ctx.sweep(check_rewrite, rp, space="one path rewritten with equal size and mtime", selftest=2)
     # 3b. signature of documented generic commands (arguments without line breaks)
     one_line = [l for l in LEX if "\n" not in l]
     sig_jobs = [[a] for a in one_line] + [[a, b] for a in CORE for b in CORE if "\n" not in a + b]
@@ -417,6 +501,8 @@ def run(ctx):
 def replay(case):
     if "sig_args" in case:
         return check_signature(case["sig_args"])["viol"]
+    if "rewrite" in case:
+        return common.in_fork(check_rewrite, tuple(case["rewrite"]))["viol"]
     if "path" in case:
         r = check_corpus(case["path"])
     else:
